@@ -1,8 +1,9 @@
 """C20 -- disabled coding tools never appear; the requested tiling is used.
 Bitstream.tla (ToolsOK / TilesOK and the sequence-level switches) on every frame and sequence header of a
 corpus in which each tool switch is turned off (and, as a control, on), judged from the independent parser.
-Frame/sequence-level signalling only: block-level use (palette, CfL, OBMC, filter-intra, inter-intra blocks)
-is implied only where the frame/sequence switch forbids the tool."""
+Block level (BlockTools.tla): every stream is parsed by the repository's decoder built with guarded per-tool block counters
+(palette, filter intra, CfL, intrabc, OBMC, local warp, inter-intra, wedge / difference / distance weighted compound, skip mode);
+a tool the configuration disables must be used by no block of any frame."""
 import random
 
 import vlib
@@ -27,6 +28,76 @@ OFF = {
 }
 
 
+# configuration switch -> block-level tools (names of BlockTools.tla) that no block may use
+OFF_BLOCK = {
+    "palette": ({"palette_level": 0, "screen_content_mode": 1}, ["palette"]),
+    "screen content off": ({"screen_content_mode": 0}, ["palette", "intrabc"]),
+    "intra block copy": ({"intrabc_mode": 0, "screen_content_mode": 1}, ["intrabc"]),
+    "filter intra": ({"filter_intra_level": 0}, ["filter_intra"]),
+    "chroma from luma": ({"disable_cfl_flag": 1}, ["cfl"]),
+    "obmc": ({"obmc_level": 0}, ["obmc"]),
+    "local warp": ({"enable_warped_motion": 0}, ["warp"]),
+    "inter-intra": ({"inter_intra_compound": 0}, ["interintra"]),
+    "compound off": ({"compound_level": 0}, ["wedge", "diffwtd", "distwtd"]),
+    "compound without wedge": ({"compound_level": 1}, ["wedge"]),
+}
+TOOL_NAMES = ["blocks", "palette", "filter_intra", "cfl", "intrabc", "obmc", "warp", "interintra", "wedge", "diffwtd", "distwtd", "skip_mode"]
+
+
+def block_level(res):
+    """Block-level part: every stream is parsed by the repository's decoder built with the guarded per-tool counters;
+    BlockTools.tla requires a zero count for every tool the configuration disables."""
+    import os
+    from checks import common
+    quick = res.tier == "quick"
+    cs = []
+    for name, (sets, toff) in OFF_BLOCK.items():
+        for pr in ([6, 4] if quick else [6, 5, 4, 2]):
+            for content in (["screen"] if "screen_content_mode" in sets and sets["screen_content_mode"] == 1 else ["pan", "screen"] if quick else ["pan", "motion", "screen"]):
+                s = {"enc_mode": pr, "logical_processors": 4, "enable_tpl_la": 1}
+                s.update(sets)
+                n = 8 if pr >= 5 else 5
+                cs.append({"args": ["-n", str(n), "-w", "128", "-h", "128", "--content", content], "sets": s, "n": n, "w": 128, "h": 128,
+                           "off": toff, "tag": "blockoff:" + name})
+    for pr in ([6, 4] if quick else [6, 5, 4, 2, 0]):       # controls: nothing forbidden -- shows which tools the corpus actually exercises
+        for content, extra in (("pan", {}), ("screen", {"screen_content_mode": 1}), ("screen", {"screen_content_mode": 1, "intrabc_mode": 1, "palette_level": 1})):
+            s = {"enc_mode": pr, "logical_processors": 4, "enable_tpl_la": 1}
+            s.update(extra)
+            cs.append({"args": ["-n", "8", "-w", "128", "-h", "128", "--content", content], "sets": s, "n": 8, "w": 128, "h": 128, "off": [], "tag": "blockcontrol"})
+    rs = corpus.run_cases(cs, timeout=400)
+
+    def dec(r):
+        if r["rc"] != 0 or not os.path.exists(r["out"] + ".pkts"):
+            return None
+        trc = r["out"] + ".tools"
+        d = common.run_dec(r["out"] + ".pkts", r["out"] + ".decb", ["--svt", "--threads", "1", "-w", "128", "-h", "128", "--bits", "8",
+                                                                    "--trace", "dectools", "--trace-out", trc], timeout=200)
+        rows = [a for _, _, _, _, ev, a in vlib.read_trace(trc, "dectools")] if os.path.exists(trc) else []
+        for f in (trc, r["out"] + ".decb"):
+            if os.path.exists(f):
+                os.unlink(f)
+        return d, rows
+    outs = common.parallel(dec, rs)
+    b = corpus.Bundle()
+    used = {}
+    for r, o in zip(rs, outs):
+        res.case(r["desc"] + " [" + r["case"]["tag"] + "]")
+        if o is None or o[0]["rc"] != 0 or not o[1]:
+            res.cov.setdefault("incomplete_block_level_runs", []).append(r["desc"])
+            continue
+        d, rows = o
+        b.add("BlockTools", [{"ev": "Run", "off": r["case"]["off"]}] + [{"ev": "Tools", "c": a} for a in rows] + [{"ev": "RunEnd"}],
+              "%s [%s]" % (r["desc"], r["case"]["tag"]))
+        for a in rows:
+            for nme, v in zip(TOOL_NAMES, a):
+                if v:
+                    used[nme] = used.get(nme, 0) + v
+    res.cov["blocks_using_tool"] = used
+    b.validate(res, "BlockTools", "C20 block-level use of disabled tools",
+               key_fn=lambda rej: {"kind": "block_tool", "tag": rej["desc"].split("[")[-1].rstrip("]")})
+    corpus.cleanup(rs)
+
+
 def tile_expect(w, h, cols_log2, rows_log2, sb=64):
     sbc, sbr = (w + sb - 1) // sb, (h + sb - 1) // sb
 
@@ -40,7 +111,7 @@ def tile_expect(w, h, cols_log2, rows_log2, sb=64):
 def run(res):
     res.cov["rule"] = ("cases = each tool switch off (and a default-on control) x presets {8,6(thorough: 5,4,2)} x screen/natural content; "
                        "tile_rows 0..(6) x tile_columns 0..(4) x sizes; every frame header judged")
-    res.assumptions += ["frame- and sequence-level signalling only (no block-level counters)",
+    res.assumptions += ["block level: counted by the repository's own decoder (guarded counters in parse_block), which C08 compares with libaom",
                         "expected tile counts follow the AV1 uniform tile spacing formula for the coded frame size"]
     rng = random.Random(res.seed * 37 + 3)
     cs = []
@@ -86,3 +157,4 @@ def run(res):
     res.sample({"case": cs[0]["sets"], "expect": cs[0]["expect"]})
     b.validate(res, "Bitstream", "C20 tool switches / tiling")
     corpus.cleanup(rs)
+    block_level(res)
